@@ -68,8 +68,8 @@ CLAIMS.update({
             "Coq specification + simulation proof (all roots) ; extracted specification as oracle ; model/implementation correspondence", "4 C01"),
     "C03": ("proof", "Proved at operation level for all states: Exceeded is raised for the outermost listed live region the field would cross, names that region (path, limit, counted bytes), the offending field and the excess, after skipping exactly the rest of the region; Anticipated is raised for a live enclosing region when a size is read that cannot fit; a region closes normally only when exactly filled, else Subceeded names it. Not yet proved: composition over whole types (accepted => all sizes exact; nothing decidable earlier). Oracle: accepted => the extracted specification parses the input with exact sizes; the arithmetic of every size error recomputed from the emitted events; correspondence on every size field perturbed." + PART % "C03",
             "Coq proof (operation-level error anatomy) + region-arithmetic oracle + correspondence on fault-enumerated inputs", "4 C03"),
-    "C04": ("proof", "PROVED for every root but the stream (structure types, commands, responses; all inputs; tables passing msg_tables_ok, which the regenerated ones do): a structurally consistent input is rejected by strict decoding if and only if some leaf of the field-by-field reading is out of range (valid <-> membership in the declared set, C16); the error names the FIRST such leaf in wire order (path, declared type, integer), exactly the events of all earlier fields and none for the offending one have been emitted, exactly the bytes after that field remain (Proofs/Sim6-10.v: warn-mode simulation + strict/warn agreement + strict mode never warns); the field-level anatomy for all states. NOT yet proved: the stream root, and reserved command codes (an unknown command code makes the input structurally inconsistent for the specification): oracle = implementation vs extracted spec_value_error at the pinned tables on every constrained leaf of generated messages." + PART % "C04",
-            "Coq proof (simulation + strict/warn agreement; types, commands, responses) + extracted specification as oracle + correspondence", "4 C04"),
+    "C04": ("proof", "PROVED for EVERY root (structure types, commands, responses, streams of whole messages below the model's loop bound; all inputs; tables passing msg_tables_ok, which the regenerated ones do): a structurally consistent input is rejected by strict decoding if and only if some leaf of the field-by-field reading is out of range (valid <-> membership in the declared set, C16); the error names the FIRST such leaf in wire order (path, declared type, integer), exactly the events of all earlier fields and none for the offending one have been emitted, exactly the bytes after that field remain (Proofs/Sim6-13.v: warn-mode simulation + strict/warn agreement + strict mode never warns); the field-level anatomy for all states. NOT proved: reserved / unknown command codes (they make the input structurally inconsistent for the specification, so the theorems do not speak about them): decided by the oracle (implementation vs extracted spec_value_error at the pinned tables on every constrained leaf of generated messages, command codes included) and the correspondence." + PART % "C04",
+            "Coq proof (simulation + strict/warn agreement; all roots) + extracted specification as oracle + correspondence", "4 C04"),
     "C05": ("proof", "Proved for all inputs/roots/tables: Depleted <=> the decoder is suspended asking for a byte with the whole input handed over and nothing left; Superfluous carries exactly the non-empty unread rest (input = consumed ++ rest); a suspended decoder has used its input up (both modes). With C10_prefix_stable the events before a depleted error are a prefix of the full decode's events. That they are exactly the complete fields needs C01 (partial). Oracle: every/boundary cut points and suffixes of generated messages and streams, command code carried, clean stream ends only at message boundaries." + PART % "C05",
             "Coq proof (pump characterisation, accounting, incrementality) + cut/suffix enumeration oracle + correspondence", "4 C05"),
     "C06": ("proof", "Termination is by construction (total Gallina function, loop exhaustion is the distinguished OFuel outcome). Proved: never pulls more than the input holds; the pump adds no failure mode (an undocumented outcome can only come from an enumerated internal site of the processor). Not yet proved: unreachability of those sites in strict mode for coherent tables. Oracle: exception classes escaping the implementation on random, mutated and mistyped inputs over all roots; correspondence compares outcome classes incl. crashes." + PART % "C06",
